@@ -100,7 +100,12 @@ pub fn do_layout(r: &mut Runner, st: &Value) {
         }
         if b["tail"].as_bool().unwrap_or(false) {
             let count = b.get("count").and_then(|x| x.as_i64()).unwrap_or(nh);
-            fs::write(bdir.join("BANDTAIL"), format!("{{\"end_time\":1600000100,\"index_hunk_count\":{count}}}\n")).unwrap();
+            if b.get("legacy_tail").and_then(|x| x.as_bool()).unwrap_or(false) {
+                // releases before 0.6.4 wrote no hunk count into the tail
+                fs::write(bdir.join("BANDTAIL"), b"{\"end_time\":1600000100}\n").unwrap();
+            } else {
+                fs::write(bdir.join("BANDTAIL"), format!("{{\"end_time\":1600000100,\"index_hunk_count\":{count}}}\n")).unwrap();
+            }
         }
     }
     r.log.emit(json!({"ev": "layout"}));
